@@ -78,12 +78,29 @@ def build(d):
 
 
 def simulate(comps, d, vol_shape, order_of=None, two_d=False):
-    from acryo import TomogramSimulator, Molecules
+    from acryo import TomogramSimulator, Molecules, pipe
     sim = TomogramSimulator(order=d["order"], scale=d["scale"])
     idx = list(range(len(comps))) if order_of is None else order_of
+    how = d.get("template_as", "array")
+
+    def as_input(t):
+        # the template as an array or as a scale-aware provider (same voxels at the simulator's scale)
+        return pipe.from_array(t, original_scale=d["scale"]) if how == "provider" else t
+
+    if d.get("history") and not two_d:
+        # the simulator object has a past: every component was first registered with another template and simulated once,
+        # then replaced (overwrite=True) by the real one
+        for i in idx:
+            tmpl, pos, R = comps[i]
+            sim.add_molecules(Molecules(pos * d["scale"], R), as_input((tmpl[::-1, ::-1, ::-1] * 0.5 + 1.0).astype(np.float32)), name=f"c{i}")
+        sim.simulate(tuple(vol_shape))
+        for i in idx:
+            tmpl, pos, R = comps[i]
+            sim.add_molecules(Molecules(pos * d["scale"], R), as_input(tmpl), name=f"c{i}", overwrite=True)
+        return sim.simulate(tuple(vol_shape))
     for i in idx:
         tmpl, pos, R = comps[i]
-        sim.add_molecules(Molecules(pos * d["scale"], R), tmpl, name=f"c{i}")
+        sim.add_molecules(Molecules(pos * d["scale"], R), as_input(tmpl), name=f"c{i}")
     if two_d:
         return sim.simulate_2d(tuple(vol_shape[1:]))
     return sim.simulate(tuple(vol_shape))
@@ -264,7 +281,8 @@ def cases(draw):
         dense = draw(st.integers(0, 3)) == 0
         mols = [draw(mol_pose(shape, vol, only_grid=dense)) for _ in range(draw(st.integers(1, 4)))]
         comps.append({"shape": shape, "seed": draw(gen.seeds), "mols": mols, "dense": dense})
-    return {"vol": vol, "components": comps, "order": draw(st.sampled_from([0, 1, 3, 3])), "scale": draw(st.one_of(gen.scales, st.sampled_from([0.2, 0.25, 0.3, 1.3, 0.6, 2.7])))}
+    return {"vol": vol, "components": comps, "template_as": draw(st.sampled_from(["array", "array", "provider"])),
+            "history": draw(st.sampled_from([False, False, True])), "order": draw(st.sampled_from([0, 1, 3, 3])), "scale": draw(st.one_of(gen.scales, st.sampled_from([0.2, 0.25, 0.3, 1.3, 0.6, 2.7])))}
 
 
 def nontrivial(d):
@@ -278,6 +296,9 @@ def labels(d):
         labs.add("thin-volume")
     if max(d["vol"]) > 1000:
         labs.add("long-axis")
+    labs.add("template:" + d.get("template_as", "array"))
+    if d.get("history"):
+        labs.add("overwritten-components")
     for c in d["components"]:
         labs |= set(gen.parity_class(c["shape"]))
         for m in c["mols"]:
